@@ -62,9 +62,10 @@ def gen_bounds(rng, sbml_safe=False):
 def gen_rich_spec(rng, sbml=False):
     nm = rng.randint(2, 5)
     nr = rng.randint(2, 5)
-    mids = rng.sample(M_IDS, nm)
-    rids = rng.sample(R_IDS, nr)
-    gids = rng.sample(G_IDS, rng.randint(0, 4))
+    extra = sbml and rng.random() < 0.3          # identifiers with letters and digits outside ASCII
+    mids = rng.sample(M_IDS + (["αKG_c", "fe²_e"] if extra else []), nm)
+    rids = rng.sample(R_IDS + (["é1", "Rü_2"] if extra else []), nr)
+    gids = rng.sample(G_IDS + (["gü1"] if extra else []), rng.randint(0, 4))
     mets = []
     for m in mids:
         comp = "e" if m.endswith("_e") else "c"
